@@ -179,7 +179,7 @@ template <class T> void sub_continuity (Ctx& c, uint64_t idx)
         }
         if (ratio <= C) continue;
         std::string cls = std::string ("jump_across_affine_test.") + pname;
-        if (gap && (C * amp * cond * eps > 0.5 || ratio <= C * amp)) cls += ":sv_gap";
+        if (gap && (C * amp * cond * eps > 0.5 || ratio <= C * amp)) cls = "jump_across_affine_test:sv_gap"; // one key per form for the known finding
         c.fail (key_of (n, f, TName<T>::s (), cls), idx, [&] {
             return Obj ().kv ("kind", kind_name (kind)).kv ("perturbation", pname).kv ("n", n).raw ("M", arr_json (M)).kv ("M_bits", arr_bits (M)).raw ("M_perturbed", arr_json (Mp)).raw ("inverse_M", arr_json (X0)).raw ("inverse_M_perturbed", arr_json (X1)).kv ("cond_inf", cond).kv ("amp", amp).kv ("diff_over_cond_eps_normX", ratio).str ();
         });
